@@ -9,7 +9,7 @@ import dgram_common as dc  # noqa: E402
 PROP = "C08"
 DRIVER_PROP = "C01"
 RULE = ("real ssnet.runonce on both tunnel ends over fake sockets, every micro-step replayed on the extracted model and the full "
-        "state of both ends compared after every iteration; cases: connect refused/unreachable/timeout, reset or EPIPE on send/recv at a random operation index, failing shutdown, on either end, next to healthy flows; a case is non-trivial when at least one flow was "
+        "state of both ends compared after every iteration; cases: connect refused/unreachable/timeout, reset or EPIPE on send/recv at a random operation index, failing shutdown, on either end, next to healthy flows (whose C01 oracles are reported here when they fail); a pending connect answered by EALREADY, by EINVAL + SO_ERROR (BSD) or the Windows way (simulated platform), an errno never heard of, a connection reset right after accept (no peer name), and the tunnel itself ending under open flows (end-of-stream, read error, EXIT message: implementation-side oracle on how the loops end); accept() failing with ECONNABORTED (real onaccept_tcp, scripted listener); a case is non-trivial when at least one flow was "
         "accepted; distinct by case seed; PLUS datagram flows: the REAL server.main loop with a conforming peer, a healthy UDP association and DNS query next to 1-3 victim flows whose connect/send/recv/sendto/recvfrom fail with every errno of a 22-element set, persistently (every attempt) or transiently, probes on the healthy flows and a new query afterwards; the real client functions with the delivery of one source's replies failing at bind/sendto, persistently or once")
 TRUSTED_BASE = sc.STREAM_TB + ["datagram part: the fake listener / reply / resolver sockets, select() and the two clocks (time.time and time.monotonic, different epochs) of harness/props/dgram_common.py stand for the kernel; it is an oracle on the real code only (the model comparison of the same code is done by ./check C10 and C11)"]
 ASSUMPTIONS = sc.STREAM_ASSUMPTIONS
